@@ -6,7 +6,10 @@
 (* event: [call, rep, t, mcfg, recv(5 ids), mem(5 seqs of member ids), fp(5 content tokens),      *)
 (*         ret(5), retmem(5), retfp(5), retmcfg, sfp(5 start content tokens after the call)]      *)
 (* Logged events are the operator and logbook calls; BeginRep, Reset, Tick0, Tick, Finished are   *)
-(* silent steps of the spec (deterministic given pc), taken between logged events.                *)
+(* silent steps of the spec (deterministic given pc), taken between logged events.  After evolve() *)
+(* has returned the driver may call advance(k) and reset() directly: logged as events "advance"    *)
+(* (field k) and "reset" (ret / retmem / retfp = the working containers after the call), each      *)
+(* followed by its own "final" observation.                                                        *)
 EXTENDS BreedingLoop, Json, IOUtils
 
 Traces == JsonDeserialize(IOEnv.TRACE_FILE)
@@ -33,7 +36,7 @@ TraceInit ==
     /\ pc = "idle" /\ nrep = T.nrep /\ ngen = T.ngen /\ loginit = T.loginit
     /\ rep = 0 /\ gen = 0 /\ t = 0 /\ lrep = 0
     /\ al = [s \in Slots |-> [cs |-> FALSE, ms |-> FALSE, cd |-> FALSE, sd |-> FALSE]]
-    /\ hist = <<>>
+    /\ hist = <<>> /\ tb = 0
     /\ held = <<0, 0, 0, 0, 0>> /\ heldm = <<<<>>, <<>>, <<>>, <<>>, <<>>>>
     /\ mcfg = 0 /\ misc = 0
     /\ seen = AllIds(T.startids, T.startmem)
@@ -97,8 +100,30 @@ TraceFinal ==
     /\ l' = l + 1
     /\ UNCHANGED <<vars, tid, held, heldm, mcfg, seen, misc>>
 
+\* a direct advance(k) call on a programme whose evolve() has returned: k more cycles from the current time
+TraceAdvance ==
+    LET e == Ev IN
+    /\ l <= Len(T.ev) /\ e.call = "advance"
+    /\ MoreAdvanceBody(e.k)
+    /\ l' = l + 1
+    /\ UNCHANGED <<tid, held, heldm, mcfg, seen, misc>>
+
+\* a direct reset() call: the working containers are new objects all the way down with the initial content, the start is untouched
+TraceReset ==
+    LET e == Ev IN
+    /\ l <= Len(T.ev) /\ e.call = "reset"
+    /\ AllIds(e.ret, e.retmem) \cap seen = {}
+    /\ \A s \in S5 : e.retfp[s] = T.initfp[s] /\ e.sfp[s] = T.initfp[s]
+    /\ e.t = 0
+    /\ ResetCall
+    /\ held' = e.ret /\ heldm' = e.retmem
+    /\ seen' = seen \cup AllIds(e.ret, e.retmem)
+    /\ l' = l + 1
+    /\ UNCHANGED <<tid, mcfg, misc>>
+
 TraceNext ==
     \/ Silent
+    \/ TraceAdvance \/ TraceReset
     \/ \E c \in {"evalinit", "pselect", "mate", "evaluate", "sselect"} : l <= Len(T.ev) /\ TraceOp(c)
     \/ \E c \in {"log_initialize", "log_pselect", "log_mate", "log_evaluate", "log_sselect"} :
             l <= Len(T.ev) /\ TraceLog(c)
